@@ -104,6 +104,9 @@ class CUnit:
         self.arrays = arrays or {}
         self.harness = harness
         self.post_hook = post_hook
+        self.exec_cls = CExec
+        self.rename = lambda nm: nm
+        self.err_ghost = False
 
     # ------------------------------------------------------------------ proving
     def run(self, timeout_s=30):
@@ -134,11 +137,13 @@ class CUnit:
         self._tu_text = text
         res.subject.update(function=self.fname, route=route, sha256_16=sha(ftext), defines=list(self.defines),
                            dropped="comments, attributes, pragmas; preprocessor branches not selected by the defines")
-        ex = CExec(nodes, self.fname, contracts=self.callees, prefix=self.uid + "/", options=self.options)
+        ex = self.exec_cls(nodes, self.fname, contracts=self.callees, prefix=self.uid + "/", options=self.options)
         st = State()
+        if self.err_ghost:
+            st.err = z3.IntVal(0)      # precondition: no exception pending on entry
         e = Env()
         args = []
-        ptypes = ex.param_types()
+        ptypes = [(self.rename(nm), ty) for nm, ty in ex.param_types()]
         for nm, ty in ptypes:
             if ty.is_int():
                 t = z3.Int(nm)
@@ -174,6 +179,8 @@ class CUnit:
         for s, v in rets:
             e2 = Env(**e.__dict__)
             e2.result = v.t if isinstance(v, CV) else v
+            if self.err_ghost:
+                e2.err = s.err
             for c in self.cells:
                 setattr(e2, c + "_out", z3.Select(s.mem[c], 0))
             for label, f in self.ensures:
@@ -218,6 +225,167 @@ class CUnit:
                 except Exception:
                     rp = {"error": traceback.format_exc()[-1500:]}
                 d["replay"] = rp
+            if ob.kind != "measured" and ((d["status"] == "failed" and not (d.get("replay") or {}).get("confirmed"))
+                                          or d["status"] == "unknown"):
+                # spec-guided concrete search on the real code (DESIGN 2.5): boundary grid + seeded random
+                try:
+                    regions = [r for g, r, _ in self.kf if r is not None and fnmatch.fnmatch(ob.name, g)]
+                    found = self.concrete_search(ob, regions)
+                except Exception:
+                    found = {"error": traceback.format_exc()[-1500:]}
+                if found and found.get("confirmed"):
+                    if d["status"] == "unknown":
+                        d["note"] = (d.get("note") or "") + " solver undecided; failing input found by concrete search"
+                    d["status"] = "failed"
+                    d["replay"] = found
+                elif d["status"] == "failed":
+                    d["replay"]["concrete_search"] = found
+
+    # ------------------------------------------------------------------ concrete search
+    def _grid(self, ty, rnd, n_random):
+        vals = {0, 1, 2, 3, 5, 7}
+        if ty.signed:
+            vals |= {-1, -2, -3, ty.min, ty.min + 1, ty.min + 2, ty.min // 2, ty.min // 2 - 1, ty.min // 2 + 1}
+        vals |= {ty.max, ty.max - 1, ty.max - 2, ty.max // 2, ty.max // 2 + 1, ty.max // 2 - 1, ty.max // 3}
+        for k in (7, 15, 16, 30, 31, 32):
+            if k < ty.bits - 1:
+                vals |= {1 << k, (1 << k) - 1, (1 << k) + 1}
+                if ty.signed:
+                    vals |= {-(1 << k), -(1 << k) - 1, -(1 << k) + 1}
+        vals = {v for v in vals if ty.min <= v <= ty.max}
+        for _ in range(n_random):
+            vals.add(rnd.randint(ty.min, ty.max))
+            vals.add(rnd.randint(-40, 40) if ty.signed else rnd.randint(0, 80))
+        return sorted(vals)
+
+    def concrete_search(self, ob, regions=(), budget=6000):
+        """run the extracted function natively on a boundary grid + random inputs and evaluate the
+        contract on each result; returns a confirmed replay record for the first failing input."""
+        import itertools
+        import random
+        if any(not (ty.is_int() or nm in self.cells) for nm, ty in self._ptypes_cached()):
+            return {"confirmed": False, "note": "concrete search only implemented for integer parameters"}
+        rnd = random.Random(int(os.environ.get("VERIF_SEED", "0") or 0) + 17)
+        ptypes = self._ptypes
+        grids = []
+        for nm, ty in ptypes:
+            if nm in self.cells:
+                grids.append([0, 1])
+            elif nm == "b_is_constant":
+                grids.append([0, 1])
+            else:
+                grids.append(self._grid(ty, rnd, 6))
+        combos = list(itertools.product(*grids))
+        if len(combos) > budget:
+            rnd.shuffle(combos)
+            combos = combos[:budget]
+        names = [nm for nm, _ in ptypes]
+        e0 = Env()
+        e0.T = TInfo(self._rty) if self._rty.kind == "int" else None
+        e0.types = {nm: TInfo(ty) for nm, ty in ptypes if ty.kind == "int"}
+        cases = []
+        for c in combos:
+            e = Env(**e0.__dict__)
+            for nm, v in zip(names, c):
+                setattr(e, nm, v)
+            try:
+                if not all(bool(f(e)) for _, f in self.requires):
+                    continue
+                if any(bool(r(e)) for r in regions):
+                    continue
+            except Exception:
+                continue
+            cases.append(c)
+        if not cases:
+            return {"confirmed": False, "note": "no grid point satisfies the precondition"}
+        sanitize = ob.kind in ("ub", "unwind")
+        outs = self.run_native_batch(cases, sanitize)
+        if "build_error" in outs:
+            return {"confirmed": False, "note": outs["build_error"][-500:]}
+        tried = 0
+        for c, out in zip(cases, outs["results"]):
+            tried += 1
+            vals = dict(zip(names, c))
+            if out is None:       # process died on this input
+                return {"inputs": vals, "confirmed": True, "native": {"exit": outs.get("exit"), "stderr": outs.get("stderr", "")[-600:]},
+                        "how": "concrete search: native run of the extracted function %s on this input (tried %d inputs)"
+                               % ("under UBSan aborted" if sanitize else "crashed", tried), "obligation": ob.name}
+            if sanitize:
+                continue
+            e = Env(**e0.__dict__)
+            for nm, v in vals.items():
+                setattr(e, nm, v)
+            e.result = out.get("result")
+            e.err = out.get("err", 0)
+            for cnm in self.cells:
+                setattr(e, cnm + "_out", out.get(cnm + "_out"))
+            viol = [label for label, f in self.ensures if not bool(f(e))]
+            if viol:
+                return {"inputs": vals, "native": out, "violated_postconditions": viol, "confirmed": True,
+                        "obligation": ob.name,
+                        "how": "concrete search: native run of the extracted function; postconditions evaluated natively (tried %d inputs)" % tried}
+        return {"confirmed": False, "tried": tried, "note": "no failing input among %d grid/random inputs" % tried}
+
+    def _ptypes_cached(self):
+        if not hasattr(self, "_ptypes"):
+            self._param_names()
+        return self._ptypes
+
+    def run_native_batch(self, cases, sanitize=False):
+        """one process, many inputs (read from stdin); a crash/abort identifies the offending input."""
+        text = self._tu_text
+        rty = self._rty
+        decl, scan, call, prints = [], [], [], []
+        for nm, ty in self._ptypes:
+            decl.append("long long in_%s;" % nm)
+            scan.append("in_%s" % nm)
+            if nm in self.cells:
+                decl.append("%s %s;" % (ty.pointee.name, nm))
+                call.append("&" + nm)
+            else:
+                call.append("(%s) in_%s" % (ty.name, nm))
+        body = []
+        for nm, ty in self._ptypes:
+            if nm in self.cells:
+                body.append("%s = (%s) in_%s;" % (nm, ty.pointee.name, nm))
+        fmt = " ".join(["%lld"] * len(scan))
+        args = ", ".join("&" + s for s in scan)
+        if rty.kind == "int":
+            body.append("%s r = %s(%s);" % (rty.name, self.fname, ", ".join(call)))
+            body.append('printf("result=%s", (%s) r);' % ("%lld" if rty.signed else "%llu",
+                                                         "long long" if rty.signed else "unsigned long long"))
+        else:
+            body.append("%s(%s);" % (self.fname, ", ".join(call)))
+        for nm in self.cells:
+            body.append('printf(" %s_out=%%lld", (long long) %s);' % (nm, nm))
+        body.append('printf("\\n"); fflush(stdout);')
+        harness = ("\n#include <stdio.h>\nint main(void) {\n  %s\n  while (scanf(\"%s\", %s) == %d) {\n    %s\n  }\n  return 0;\n}\n"
+                   % ("\n  ".join(decl), fmt, args, len(scan), "\n    ".join(body)))
+        cfile = cextract.write_tu(text + harness, "batch.c")
+        exe = cfile[:-2] + (".san" if sanitize else ".bin")
+        cc = ["clang"] + (["-fsanitize=undefined", "-fno-sanitize-recover=all"] if sanitize else [])
+        cmd = cc + ["-O0", "-w", "-I" + cextract.PY_INCLUDE] + ["-D" + d for d in self.defines] + [cfile, "-o", exe, "-lm"]
+        p = subprocess.run(cmd, capture_output=True, text=True)
+        if p.returncode != 0:
+            return {"build_error": p.stderr[-2000:]}
+        # unsigned values above LLONG_MAX are passed as their two's-complement long long image
+        def enc(v):
+            return v - (1 << 64) if v > (1 << 63) - 1 else v
+        inp = "\n".join(" ".join(str(enc(v)) for v in c) for c in cases) + "\n"
+        try:
+            r = subprocess.run([exe], input=inp, capture_output=True, text=True, timeout=120)
+        except subprocess.TimeoutExpired:
+            return {"build_error": "timeout"}
+        results = []
+        for line in r.stdout.splitlines():
+            d = {}
+            for tok in line.split():
+                k, v = tok.split("=", 1)
+                d[k] = int(v)
+            results.append(d)
+        while len(results) < len(cases):
+            results.append(None)
+        return {"results": results, "exit": r.returncode, "stderr": r.stderr}
 
     # ------------------------------------------------------------------ replay
     def native_inputs(self, model):
@@ -231,8 +399,8 @@ class CUnit:
 
     def _param_names(self):
         text, route, path, nodes, ftext = self._prepare()
-        ex = CExec(nodes, self.fname)
-        self._ptypes = ex.param_types()
+        ex = self.exec_cls(nodes, self.fname)
+        self._ptypes = [(self.rename(nm), ty) for nm, ty in ex.param_types()]
         self._rty = ex.return_type()
         self._tu_text = text
         return [nm for nm, _ in self._ptypes]
@@ -266,7 +434,7 @@ class CUnit:
             "\n  ".join(decl), callx, "\n  ".join(prints))
         cfile = cextract.write_tu(text + harness, "replay.c")
         exe = cfile[:-2] + (".san" if sanitize else ".bin")
-        cc = ["clang", "-fsanitize=undefined", "-fno-sanitize-recover=all"] if sanitize else ["cc"]
+        cc = ["clang", "-fsanitize=undefined", "-fno-sanitize-recover=all"] if sanitize else ["clang"]
         cmd = cc + ["-O0", "-w", "-I" + cextract.PY_INCLUDE] + ["-D" + d for d in self.defines] + [cfile, "-o", exe, "-lm"]
         p = subprocess.run(cmd, capture_output=True, text=True)
         if p.returncode != 0:
@@ -306,6 +474,7 @@ class CUnit:
             rep["how"] = "native run crashed (exit %s)" % out["exit"]
             return rep
         e.result = out.get("result")
+        e.err = out.get("err", 0)
         for c in self.cells:
             setattr(e, c + "_out", out.get(c + "_out"))
         viol = []
@@ -319,7 +488,7 @@ class CUnit:
                 viol.append(label)
         rep["violated_postconditions"] = viol
         rep["confirmed"] = bool(viol) and pre_ok
-        rep["how"] = "function compiled from the same extracted text with cc -O0 and run; postconditions evaluated natively"
+        rep["how"] = "function compiled from the same extracted text with clang -O0 (same preprocessor configuration as the proof) and run; postconditions evaluated natively"
         return rep
 
 
